@@ -111,6 +111,7 @@ type parOpts struct {
 	PauseMid bool // directed: issue the pause only while a handler is parked mid-handler
 	Spin     int
 	RunUntil bool // serial engine only: drive the run through RunUntil(t) boundaries, then Run
+	Double   bool // every pause is issued by two goroutines at once (overlapping Pause calls)
 }
 
 // runPar executes one program and returns its log (ending with ret).
@@ -149,17 +150,27 @@ func runPar(p program, o parOpts, rng *rand.Rand) []map[string]any {
 	startPause := func() {
 		pausesLeft--
 		atomic.StoreInt32(&pausing, 1)
-		pauser.Add(1)
-		go func() {
-			defer pauser.Done()
-			eng.Pause()
-			c.rec(map[string]any{"e": "pause_ret"})
-			// stay paused while the controller keeps releasing parked handlers
-			time.Sleep(time.Duration(1+rng.Intn(3)) * time.Millisecond)
-			c.rec(map[string]any{"e": "continue"})
-			eng.Continue()
-			atomic.StoreInt32(&pausing, 0)
-		}()
+		n := 1
+		if o.Double {
+			n = 2
+		}
+		hold := time.Duration(1+rng.Intn(3)) * time.Millisecond
+		var left int32 = int32(n)
+		for k := 0; k < n; k++ {
+			pauser.Add(1)
+			go func(k int) {
+				defer pauser.Done()
+				eng.Pause()
+				c.rec(map[string]any{"e": "pause_ret"})
+				// stay paused while the controller keeps releasing parked handlers
+				time.Sleep(hold + time.Duration(k)*time.Millisecond)
+				c.rec(map[string]any{"e": "continue"})
+				eng.Continue()
+				if atomic.AddInt32(&left, -1) == 0 {
+					atomic.StoreInt32(&pausing, 0)
+				}
+			}(k)
+		}
 	}
 	if !o.Gated {
 		// free-running: pauses at random wall-clock moments (only affects which schedule is seen)
@@ -267,7 +278,7 @@ func init() {
 		if err := json.Unmarshal(raw, &in); err != nil {
 			return nil, err
 		}
-		o := parOpts{Engine: in.Engine, Procs: in.Procs, Gated: in.Gated, Policy: in.Policy, Pauses: in.Pauses, PauseMid: in.PauseMid, Spin: in.Spin, RunUntil: in.RunUntil}
+		o := parOpts{Engine: in.Engine, Procs: in.Procs, Gated: in.Gated, Policy: in.Policy, Pauses: in.Pauses, PauseMid: in.PauseMid, Spin: in.Spin, RunUntil: in.RunUntil, Double: in.Double}
 		rng := rand.New(rand.NewSource(in.Seed))
 		f, err := os.Create(in.Out)
 		if err != nil {
@@ -321,6 +332,7 @@ type parOptsJSON struct {
 	Pauses     int    `json:"pauses"`
 	PauseMid   bool   `json:"pause_mid"`
 	RunUntil   bool   `json:"run_until"`
+	Double     bool   `json:"double"`
 	Spin       int    `json:"spin"`
 }
 
